@@ -113,6 +113,7 @@ def run_tlc(
     dump_trace: bool = True,
     dfs_queue: bool = False,
     heap: str = "4g",
+    cpus: int | None = None,
     cfg_name: str | None = None,
     extra: list[str] | None = None,
 ) -> TlcResult:
@@ -122,6 +123,8 @@ def run_tlc(
     if meta.exists():
         shutil.rmtree(meta)
     java = ["java", "-XX:+UseParallelGC", f"-Xmx{heap}", "-cp", CP]
+    if cpus:
+        java.append(f"-XX:ActiveProcessorCount={cpus}")
     if dfs_queue:
         java.append("-Dtlc2.tool.queue.IStateQueue=StateDeque")
     cmd = java + ["tlc2.TLC", "-config", cfg_name, "-workers", str(workers),
@@ -129,7 +132,7 @@ def run_tlc(
     trace_file = workdir / f"trace_{cfg_name}.json"
     if trace_file.exists():
         trace_file.unlink()
-    if dump_trace and not simulate:
+    if dump_trace:
         cmd += ["-dumpTrace", "json", str(trace_file)]
     if not deadlock:
         cmd += ["-deadlock"]
@@ -196,7 +199,9 @@ def run_tlc(
     res.ok = res.error_kind is None
     if trace_file.exists():
         try:
-            res.trace = json.loads(trace_file.read_text()).get("state")
+            data = json.loads(trace_file.read_text())
+            cx = data.get("counterexample", data)
+            res.trace = [st[1] if isinstance(st, list) and len(st) == 2 else st for st in cx.get("state", [])]
         except Exception:  # noqa: BLE001
             res.trace = None
     return res
